@@ -212,34 +212,54 @@ Definition parse_directive_arguments (sg : dsig) (arg_text : str) : res (list st
     else Raise MarkupError
   else Ok arguments.
 
+(* parse_directive_text, in the order of the source: the option phase ... *)
+Definition options_phase (sg : dsig) (content : str) (line : option nat) (validate_options : bool)
+           (additional_options : option (list (str * str)))
+  : res (list pwarn * bool * list (str * str) * list str * Z) :=
+  (* parse_warnings, has_options_block, options, body_lines, content_offset *)
+  if has_option_spec sg then
+    do result <- parse_directive_options content sg (negb validate_options) line additional_options;
+    let body_lines := o_content result in
+    Ok (o_warnings result, o_has_options result, o_options result, body_lines,
+        (Z.of_nat (length (splitlines content)) - Z.of_nat (length body_lines))%Z)
+  else Ok ([], false, [], splitlines content, 0%Z).
+
+(* `not (required_arguments or optional_arguments)` and `first_line.strip()` *)
+Definition no_arguments (sg : dsig) : bool :=
+  Nat.eqb (required_arguments sg) 0 && Nat.eqb (optional_arguments sg) 0.
+Definition first_line_is_body (sg : dsig) (first_line : str) : bool :=
+  no_arguments sg && nonempty (strip first_line).
+
+(* ... the first line: body text or arguments ... *)
+Definition first_line_phase (sg : dsig) (first_line : str) (parse_warnings : list pwarn)
+           (has_options_block : bool) (body_lines : list str) (content_offset : Z)
+  : res (list pwarn * list str * Z * list str) :=
+  if no_arguments sg then
+    if nonempty (strip first_line) then
+      let parse_warnings :=
+        if has_options_block && existsb nonempty body_lines then parse_warnings ++ [W_split]
+        else parse_warnings in
+      Ok (parse_warnings, first_line :: body_lines, 0%Z, [])
+    else Ok (parse_warnings, body_lines, content_offset, [])
+  else
+    do arguments <- parse_directive_arguments sg first_line;
+    Ok (parse_warnings, body_lines, content_offset, arguments).
+
+(* ... "remove first line of body if blank" ... *)
+Definition strip_blank_line (body_lines : list str) (content_offset : Z) : list str * Z :=
+  match body_lines with
+  | l :: rest => if is_blank l then (rest, (content_offset + 1)%Z) else (body_lines, content_offset)
+  | [] => (body_lines, content_offset)
+  end.
+
 Definition parse_directive_text (sg : dsig) (first_line content : str) (line : option nat)
            (validate_options : bool) (additional_options : option (list (str * str))) : res dresult :=
-  do st <-
-    (if has_option_spec sg then
-       do result <- parse_directive_options content sg (negb validate_options) line additional_options;
-       let body_lines := o_content result in
-       Ok (o_warnings result, o_has_options result, o_options result, body_lines,
-           (Z.of_nat (length (splitlines content)) - Z.of_nat (length body_lines))%Z)
-     else Ok ([], false, [], splitlines content, 0%Z));
+  do st <- options_phase sg content line validate_options additional_options;
   let '(parse_warnings, has_options_block, options, body_lines, content_offset) := st in
-  do st2 <-
-    (if (Nat.eqb (required_arguments sg) 0) && (Nat.eqb (optional_arguments sg) 0) then
-       if nonempty (strip first_line) then
-         let parse_warnings :=
-           if has_options_block && existsb nonempty body_lines then parse_warnings ++ [W_split]
-           else parse_warnings in
-         Ok (parse_warnings, first_line :: body_lines, 0%Z, [])
-       else Ok (parse_warnings, body_lines, content_offset, [])
-     else
-       do arguments <- parse_directive_arguments sg first_line;
-       Ok (parse_warnings, body_lines, content_offset, arguments));
+  do st2 <- first_line_phase sg first_line parse_warnings has_options_block body_lines content_offset;
   let '(parse_warnings, body_lines, content_offset, arguments) := st2 in
-  (* remove first line of body if blank *)
-  let '(body_lines, content_offset) :=
-    match body_lines with
-    | l :: rest => if is_blank l then (rest, (content_offset + 1)%Z) else (body_lines, content_offset)
-    | [] => (body_lines, content_offset)
-    end in
+  let '(body_lines, content_offset) := strip_blank_line body_lines content_offset in
+  (* ... and the check for body content *)
   let parse_warnings :=
     if nonempty body_lines && negb (has_content sg) then parse_warnings ++ [W_has_content]
     else parse_warnings in
